@@ -29,9 +29,12 @@ spaces), so the residual is quadrature error only.  For every mesh the matrices 
 ||lhs - rhs||_2 / ||rhs||_2 over the affine test functions is recorded.  Criteria (calibrated on /repo, see CAL_* and the
 `margin_*` / `worst_*` stats):
 
-  * top rung the tier affords:  residual <= TOP_BOUND[rung]     ((10,10) and (12,10): the 1e-6 of the statement)
-  * every rung:                 residual <= RUNG_BOUND[rung]    (about 10-30 x the worst value seen in calibration)
-  * ladder:                     residual[k+1] <= DECAY * residual[k]  unless residual[k+1] <= FLOOR
+  * every rung:     residual <= RUNG_BOUND[rung]   (about 10 x the worst value seen in calibration; this is the
+                    "calibrated looser bound" of the rungs below the target and what the quick tier relies on)
+  * target:         residual <= 1e-6 at (12,10); a mesh that misses it there (coarse perturbed meshes: 1.0e-6 .. 2.9e-6
+                    measured, pure regular-quadrature error of near element pairs) climbs on to (14,12) and (16,14) and
+                    must reach 1e-6 at the last rung  ("once the orders are raised")
+  * ladder:         residual[k+1] <= 1.5 residual[k]  and  residual[k+2] <= 0.3 residual[k]   unless already <= FLOOR
   * constants (a = 0):          ||(1/2 M + K) 1|| <= bound * ||1/2 M 1||   (rhs is 0 there),  ||W 1|| <= 1e-10 ||W||
 
 Affine functions per mesh: 1 (constant), the three centred coordinate functions, and random combinations from ctx.rng
@@ -57,13 +60,18 @@ import numpy as np
 from vlib import meshgen
 from vlib.common import Ctx, Result
 
-LADDER = [(4, 4), (6, 6), (8, 8), (10, 10), (12, 10)]
-# calibrated on the unchanged /repo tree: worst relative residual seen per rung over all mesh families / variants /
-# seeds 0..3 (see the report of the builder; `worst_<rung>` stats repeat the measurement on every run)
-RUNG_BOUND = {(4, 4): 3e-2, (6, 6): 2e-3, (8, 8): 1e-4, (10, 10): 1e-6, (12, 10): 1e-6}
-TOP_BOUND = dict(RUNG_BOUND)          # the top rung a tier affords is judged with the same calibrated bound
-DECAY = 0.6                           # every rung must shrink the residual at least by this factor ...
-FLOOR = 1.5e-7                        # ... unless it is already below this (singular order saturates at (12,10))
+LADDER = [(4, 4), (6, 6), (8, 8), (10, 10), (12, 10), (14, 12), (16, 14)]
+TARGET = 1e-6                         # the statement's bound ...
+TARGET_RUNG = 4                       # ... is judged from (12,10) on: a mesh that has not reached it there climbs on
+EXTEND_MAX_ELEMENTS = 120
+# calibrated on the unchanged /repo tree: about 10 x the worst relative residual seen per rung over all mesh families /
+# variants / seeds (worst seen: 2.0e-2, 4.2e-4, 3.0e-5, 1.4e-5, 2.9e-6, see the builder's report; the `worst_<rung>` stats
+# repeat the measurement on every run)
+RUNG_BOUND = {(4, 4): 1.5e-1, (6, 6): 4e-3, (8, 8): 3e-4, (10, 10): 1e-4, (12, 10): 2e-5, (14, 12): 5e-6, (16, 14): 1e-6}
+CONST_BOUND = dict(RUNG_BOUND)        # ||(1/2 M + K) 1|| / ||1/2 M 1||
+NONINCR = 1.5                         # a rung may not be worse than 1.5 x the previous one ...
+DECAY2 = 0.3                          # ... and two rungs up the residual must have shrunk to 30 % (observed <= 0.1) ...
+FLOOR = 2e-7                          # ... unless it is already below this
 CONST_W_TOL = 1e-10                   # ||W 1||_inf <= CONST_W_TOL * ||W||_inf  (exact in the curl-curl form)
 NORMAL_TOL = 1e-12
 
@@ -96,15 +104,15 @@ def base_mesh(name):
     elif name.startswith("union:"):
         parts = name[6:].split("+")
         meshes, comp, off = [], [], 0.0
-        for k, pn in enumerate(parts):
-            Vp, Ep, _, _ = base_mesh(pn)
+        subs = [base_mesh(pn)[:2] for pn in parts]
+        # consecutive components are separated by a gap of one (largest) component size
+        gap = max(float(np.max(Vp.max(axis=1) - Vp.min(axis=1))) for Vp, _ in subs)
+        for k, (Vp, Ep) in enumerate(subs):
             lo, hi = Vp.min(axis=1), Vp.max(axis=1)
-            ext = float(np.max(hi - lo))
-            # translate so that consecutive components are separated by a gap of about one component size
             shift = np.array([off - lo[0], 0.3 * k - lo[1], -0.2 * k - lo[2]])
             meshes.append((Vp + shift[:, None], Ep))
             comp += [k] * Vp.shape[1]
-            off += (hi[0] - lo[0]) + 1.0 * ext
+            off += (hi[0] - lo[0]) + gap
         V, E = meshgen.union(meshes)
         return V, E, "multi", np.array(comp)
     else:
@@ -158,7 +166,7 @@ def mesh_quality(V, E):
     return min_dih, min_tri
 
 
-MIN_DIHEDRAL = 62.0     # degrees; the statement's "bounded aspect ratio": sharper wedges slow the Duffy rules down
+MIN_DIHEDRAL = 64.0     # degrees; the statement's "bounded aspect ratio": sharper wedges slow the Duffy rules down
 MIN_TRI_ANGLE = 20.0    # (a stretched 4-element tetrahedron with a 50 degree wedge still has 2.7e-5 at singular order 10)
 
 
@@ -353,7 +361,7 @@ def singular_case_coverage(grid):
 # -------------------------------------------------------------------------------------------------------------- oracle
 
 def _plan(ctx, deep):
-    """[(mesh name, variant set, top rung index)] ; the first entries are always run, the rest while time permits."""
+    """[(mesh name, variant set, top rung index, climb on until 1e-6)]; entries are run while the time budget permits."""
     rng = ctx.rng
     var_pool = [{"perturb"}, {"rigid"}, {"relabel"}, {"perturb", "rigid", "relabel"}, {"scale", "relabel"},
                 {"stretch", "perturb"}, {"perturb", "relabel", "scale"}]
@@ -363,21 +371,21 @@ def _plan(ctx, deep):
         second = rng.choice(["torus", "union:tetrahedron+octahedron", "union:cube1+tetrahedron"])
         convex = rng.choice(["tetrahedron", "octahedron", "cube1", "icosahedron"])
         return [
-            (nontriv, set(rng.choice(var_pool[:5])) | {"relabel"}, 3),
-            (convex, set(rng.choice(var_pool)), 4),
-            (second, set(rng.choice(var_pool[:4])), 2),
+            (nontriv, set(rng.choice(var_pool[:5])) | {"relabel"}, 3, False),
+            (convex, set(rng.choice(var_pool)), 4, True),
+            (second, set(rng.choice(var_pool[:4])), 2, False),
         ]
     plan = []
     names = ["tetrahedron", "octahedron", "cube1", "icosahedron", "lshape", "lshape-alt", "torus", "cube2",
              "union:tetrahedron+octahedron", "union:cube1+tetrahedron", "union:lshape+icosahedron", "cube3"]
     for nm in names:
-        plan.append((nm, set(), 4))
+        plan.append((nm, set(), 4, True))
         k = 2 if not deep else 4
         for v in rng.sample(var_pool, k):
-            plan.append((nm, set(v), 4))
+            plan.append((nm, set(v), 4, True))
     if deep:
-        plan.append(("union:torus+cube1", {"perturb", "relabel"}, 4))
-        plan.append(("cube4", {"perturb"}, 4))
+        plan.append(("union:torus+cube1", {"perturb", "relabel"}, 4, True))
+        plan.append(("cube4", {"perturb"}, 4, True))
     return plan
 
 
@@ -389,20 +397,21 @@ def oracle(ctx, deep=False, cal=False, only=None):
     t_start = time.time()
     rng = ctx.rng
     old_threads = numba.get_num_threads()
-    numba.set_num_threads(max(1, min(old_threads, int(os.environ.get("VERIF_ORACLE_THREADS", "2")))))
+    numba.set_num_threads(max(1, min(old_threads, int(os.environ.get("VERIF_ORACLE_THREADS", "1")))))
     budget = float(os.environ.get("C01_ORACLE_BUDGET_S", "0")) or (ctx.pick(135.0, 840.0) if not deep else 3000.0)
     idents = ["I1/dp0", "I2/p1"]
     extra_idents = ["I1/p1", "I1/dp1"] if (ctx.thorough or deep) else []
     n_random = ctx.pick(2, 3) if not deep else 5
     worst = {}      # (ident, rung) -> worst residual (non-constant functions)
     worst_const = {}
+    reached, climbed = {}, {}
     edge_cov, vert_cov = set(), set()
     plan = _plan(ctx, deep)
     if only:
         plan = [p for p in plan if p[0] in only]
     done = 0
     try:
-        for (name, variant, top) in plan:
+        for (name, variant, top, extend) in plan:
             if done >= 1 and time.time() - t_start > budget:
                 res.notes.append(f"time budget {budget:.0f}s reached after {done}/{len(plan)} meshes")
                 break
@@ -434,8 +443,11 @@ def oracle(ctx, deep=False, cal=False, only=None):
             fs, c, R = affine_functions(mesh, rng, n_random)
             tr = [(lab, A, B) + traces(grid, mesh, A, B, c, spaces["p1"], spaces["dp0"]) for (lab, A, B) in fs]
             per_rung = {ident: [] for ident in these}
-            t_mesh = time.time()
-            for ri in range(top + 1):
+            per_rung_const = {ident: [] for ident in these}
+            t_mesh, c_mesh = time.time(), time.process_time()
+            ri = 0
+            last = top
+            while ri <= last:
                 reg, sing = LADDER[ri]
                 # alternate between an explicit parameter object and the global parameters (both routes are public API)
                 mats = Assembled(api, spaces, these, reg, sing, use_global=(ri % 2 == 1))
@@ -452,7 +464,8 @@ def oracle(ctx, deep=False, cal=False, only=None):
                         if is_const:
                             key = (ident, LADDER[ri])
                             worst_const[key] = max(worst_const.get(key, 0.0), r)
-                            bound = CONST_W_TOL if ident == "I2/p1" else RUNG_BOUND[LADDER[ri]]
+                            per_rung_const[ident].append(r)
+                            bound = CONST_W_TOL if ident == "I2/p1" else CONST_BOUND[LADDER[ri]]
                             if r > bound:
                                 _report(res, mesh, ident, "constants", reg, sing, r, bound, lab, A, B, c, d, lhs, rhs)
                             continue
@@ -464,26 +477,47 @@ def oracle(ctx, deep=False, cal=False, only=None):
                 if cal:
                     ctx.log("cal", mesh["desc"], "dih=%.0f tri=%.0f" % (mesh["min_dihedral"], mesh["min_tri_angle"]),
                             grid.number_of_elements, LADDER[ri],
-                            " ".join("%s=%.2e" % (i_, per_rung[i_][-1][0]) for i_ in these))
+                            " ".join("%s=%.2e" % (i_, per_rung[i_][-1][0]) for i_ in these), "const",
+                            " ".join("%.1e" % per_rung_const[i_][-1] for i_ in these),
+                            "cpu %.1fs" % (time.process_time() - c_mesh))
+                # "once the orders are raised": if the statement's 1e-6 is not reached at (12,10) keep climbing (the
+                # extension rungs cost 2x / 4x the singular work of (12,10), so only on meshes of moderate size)
+                if (ri == last and extend and ri >= TARGET_RUNG and ri + 1 < len(LADDER)
+                        and grid.number_of_elements <= EXTEND_MAX_ELEMENTS
+                        and max(per_rung[i_][-1][0] for i_ in these) > TARGET):
+                    last += 1
+                ri += 1
             # criteria
             for ident in these:
                 seq = per_rung[ident]
+                lad = [s_[0] for s_ in seq]
                 for ri, (w, wdet) in enumerate(seq):
                     reg, sing = LADDER[ri]
-                    bound = RUNG_BOUND[LADDER[ri]]
-                    what = "top-rung-residual" if ri == top else "rung-residual"
-                    if w > bound:
-                        lab, A, B, d, lhs, rhs = wdet
-                        _report(res, mesh, ident, what, reg, sing, w, bound, lab, A, B, c, d, lhs, rhs,
-                                ladder=[s[0] for s in seq])
-                    if ri > 0 and w > FLOOR and w > DECAY * seq[ri - 1][0]:
-                        lab, A, B, d, lhs, rhs = wdet
-                        _report(res, mesh, ident, "ladder-not-decreasing", reg, sing, w, DECAY * seq[ri - 1][0], lab, A, B,
-                                c, d, lhs, rhs, ladder=[s[0] for s in seq])
+                    if wdet is None:
+                        continue
+                    lab, A, B, d, lhs, rhs = wdet
+                    if w > RUNG_BOUND[LADDER[ri]]:
+                        _report(res, mesh, ident, "rung-residual", reg, sing, w, RUNG_BOUND[LADDER[ri]], lab, A, B, c, d,
+                                lhs, rhs, ladder=lad)
+                    if (ri == len(seq) - 1 and extend and ri >= TARGET_RUNG and w > TARGET
+                            and grid.number_of_elements <= EXTEND_MAX_ELEMENTS):
+                        # (a mesh within the size limit has climbed to the end of LADDER when it gets here)
+                        _report(res, mesh, ident, "top-rung-residual", reg, sing, w, TARGET, lab, A, B, c, d, lhs, rhs,
+                                ladder=lad)
+                    if ri >= 1 and w > FLOOR and w > NONINCR * seq[ri - 1][0]:
+                        _report(res, mesh, ident, "ladder-increasing", reg, sing, w, NONINCR * seq[ri - 1][0], lab, A, B,
+                                c, d, lhs, rhs, ladder=lad)
+                    if ri >= 2 and w > FLOOR and w > DECAY2 * seq[ri - 2][0]:
+                        _report(res, mesh, ident, "ladder-not-decreasing", reg, sing, w, DECAY2 * seq[ri - 2][0], lab, A,
+                                B, c, d, lhs, rhs, ladder=lad)
+                if len(seq) - 1 >= TARGET_RUNG:
+                    reached[ident] = reached.get(ident, 0) + (1 if seq[-1][0] <= TARGET else 0)
+                    climbed[ident] = max(climbed.get(ident, 0), len(seq) - 1)
             done += 1
-            ctx.log(f"C01 oracle: {mesh['desc']} ({grid.number_of_elements} el, {mesh['family']}) top "
-                    f"{LADDER[top]}: " + " ".join("%s=%.1e" % (i_, per_rung[i_][-1][0]) for i_ in these)
-                    + f"  [{time.time() - t_mesh:.1f}s]")
+            ctx.log(f"C01 oracle: {mesh['desc']} ({grid.number_of_elements} el, {mesh['family']}, dihedral "
+                    f"{mesh['min_dihedral']:.0f}) top {LADDER[len(per_rung[these[0]]) - 1]}: "
+                    + " ".join("%s=%.1e" % (i_, per_rung[i_][-1][0]) for i_ in these)
+                    + f"  [{time.time() - t_mesh:.1f}s wall, {time.process_time() - c_mesh:.1f}s cpu]")
     finally:
         numba.set_num_threads(old_threads)
     for (ident, rung), w in sorted(worst.items()):
@@ -492,6 +526,9 @@ def oracle(ctx, deep=False, cal=False, only=None):
         res.stats[f"margin_{tag}"] = float("%.3g" % (RUNG_BOUND[rung] / w)) if w > 0 else float("inf")
     for (ident, rung), w in sorted(worst_const.items()):
         res.stats[f"worst_const_{ident}_r{rung[0]}s{rung[1]}"] = float("%.3e" % w)
+    for ident in reached:
+        res.stats[f"meshes_reaching_1e-6_{ident}"] = reached[ident]
+        res.stats[f"highest_rung_needed_{ident}"] = "r%ds%d" % LADDER[climbed[ident]]
     res.stats["meshes"] = done
     res.stats["edge_remap_cases_seen"] = len({(a, b) for (a, b, _, _) in edge_cov} | {(c_, d_) for (_, _, c_, d_) in edge_cov})
     res.stats["vertex_remap_cases_seen"] = len({a for (a, _) in vert_cov} | {b for (_, b) in vert_cov})
@@ -502,7 +539,8 @@ def oracle(ctx, deep=False, cal=False, only=None):
 _FAIL_TEXT = {
     "top-rung-residual": "residual at the top quadrature orders exceeds the bound",
     "rung-residual": "residual exceeds the calibrated bound of this rung",
-    "ladder-not-decreasing": "residual does not shrink when the quadrature orders are raised",
+    "ladder-not-decreasing": "residual does not shrink (to 30 % over two rungs) when the quadrature orders are raised",
+    "ladder-increasing": "residual grows when the quadrature orders are raised",
     "constants": "constant function: (1/2 M + K) 1 = 0 resp. W 1 = 0 violated",
 }
 _IDENT_KEY = {"I1/dp0": "calderon1-halfM+K=V-p1-dp0-dual-dp0", "I1/p1": "calderon1-halfM+K=V-p1-dp0-dual-p1",
